@@ -19,6 +19,7 @@ mod c13;
 mod fp;
 mod grp;
 mod pair;
+mod sr;
 
 use mccore::{Bad, Meta, Run, Tier};
 use serde_json::Value;
